@@ -41,6 +41,10 @@ pub enum DemoOp {
     Snapshot { len: u32, fill: u8, salt: u32 },
     Delta { len: u32, fill: u8, salt: u32 },
     Message { len: u32, fill: u8, salt: u32 },
+    /// raw level: the next write call of the disk fails without writing anything (a transient error such as a
+    /// full disk); the API call it belongs to must report the error, its chunk counts as not accepted, and the
+    /// recording goes on
+    WriteError,
     // typed level
     /// `inc` may be 0 or negative: the writer must refuse with an error
     Snap { inc: i32, muts: u8, salt: u32 },
@@ -194,6 +198,10 @@ impl DemoEngine {
         ctx.count_n("fault_eintr_write", d.stats.intr_writes);
         ctx.count_n("fault_short_read", d.stats.short_reads);
         ctx.count_n("fault_eintr_read", d.stats.intr_reads);
+        ctx.count_n("fault_transient_write_error", d.fail_once_fired.get() as u64);
+        if d.fail_once_fired.get() > 0 {
+            ctx.fault_inflight = true;
+        }
         if d.stats.short_writes + d.stats.intr_writes + d.stats.short_reads + d.stats.intr_reads > 0 {
             ctx.fault_inflight = true;
         }
@@ -205,52 +213,81 @@ impl DemoEngine {
     fn raw_write(cfg: &DemoCfg, ops: &[DemoOp], disk: &mut SimDisk, ctx: &mut Ctx, log: bool) -> Result<Vec<MChunk>, Option<Violation>> {
         let h = header(cfg);
         let mut model: Vec<MChunk> = Vec::new();
+        let arm_cell = disk.fail_once.clone();
+        let fired_cell = disk.fail_once_fired.clone();
         let res = guard(|| -> Result<(), String> {
             let mut w = Writer::new(&mut *disk, &h.net_version, &h.map_name, h.sha, h.crc, if h.server { DemoKind::Server } else { DemoKind::Client }, h.length, &h.timestamp, &h.map).map_err(|e| format!("Writer::new: {}", e))?;
             let mut tick: i64 = cfg.first_tick as i64;
             let mut have_tick = false;
+            // Some(fired-counter before the call) while a transient write error is armed
+            let mut armed: Option<u32> = None;
+            // Outcome of an API call made while an error may be armed: Ok(true) = chunk accepted
+            let settle = |r: Result<(), String>, armed: &mut Option<u32>| -> Result<bool, String> {
+                match armed.take() {
+                    None => r.map(|()| true),
+                    Some(before) => {
+                        let fired = fired_cell.get() > before;
+                        arm_cell.set(false);
+                        match (fired, r) {
+                            (true, Err(_)) => Ok(false),
+                            (true, Ok(())) => Err("TW2SIM-SWALLOWED a failed write was not reported by the writer".into()),
+                            (false, r) => r.map(|()| true),
+                        }
+                    }
+                }
+            };
             for op in ops {
                 match *op {
+                    DemoOp::WriteError => {
+                        arm_cell.set(true);
+                        armed = Some(fired_cell.get());
+                    }
                     DemoOp::Tick { inc, keyframe } => {
                         tick += inc.max(1) as i64;
                         if tick > i32::MAX as i64 {
                             break;
                         }
-                        if cfg.via_chunk {
-                            w.write_chunk(RawChunk::Tick { tick: tick as i32, keyframe }).map_err(|e| format!("write_chunk(Tick): {}", e))?;
+                        let r = if cfg.via_chunk {
+                            w.write_chunk(RawChunk::Tick { tick: tick as i32, keyframe }).map_err(|e| format!("write_chunk(Tick): {}", e))
                         } else {
-                            w.write_tick(keyframe, tick as i32).map_err(|e| format!("write_tick: {}", e))?;
+                            w.write_tick(keyframe, tick as i32).map_err(|e| format!("write_tick: {}", e))
+                        };
+                        if settle(r, &mut armed)? {
+                            model.push(MChunk::Tick(tick as i32, keyframe));
+                            have_tick = true;
                         }
-                        model.push(MChunk::Tick(tick as i32, keyframe));
-                        have_tick = true;
                     }
                     DemoOp::Snapshot { len, fill, salt } => {
                         if !have_tick {
                             continue;
                         }
                         let d = data(cfg.seed, raw_len(len, fill), fill, salt);
-                        if cfg.via_chunk && d.len() <= 65536 {
+                        let r = if cfg.via_chunk && d.len() <= 65536 {
                             let mut av: Box<arrayvec::ArrayVec<[u8; 65536]>> = Box::new(arrayvec::ArrayVec::new());
                             av.extend(d.iter().cloned());
-                            w.write_chunk(RawChunk::Snapshot(&av)).map_err(|e| format!("write_chunk(Snapshot): {}", e))?;
+                            w.write_chunk(RawChunk::Snapshot(&av)).map_err(|e| format!("write_chunk(Snapshot): {}", e))
                         } else {
-                            w.write_snapshot(&d).map_err(|e| format!("write_snapshot: {}", e))?;
+                            w.write_snapshot(&d).map_err(|e| format!("write_snapshot: {}", e))
+                        };
+                        if settle(r, &mut armed)? {
+                            model.push(MChunk::Snapshot(d));
                         }
-                        model.push(MChunk::Snapshot(d));
                     }
                     DemoOp::Delta { len, fill, salt } => {
                         if !have_tick {
                             continue;
                         }
                         let d = data(cfg.seed, raw_len(len, fill), fill, salt);
-                        if cfg.via_chunk && d.len() <= 65536 {
+                        let r = if cfg.via_chunk && d.len() <= 65536 {
                             let mut av: Box<arrayvec::ArrayVec<[u8; 65536]>> = Box::new(arrayvec::ArrayVec::new());
                             av.extend(d.iter().cloned());
-                            w.write_chunk(RawChunk::SnapshotDelta(&av)).map_err(|e| format!("write_chunk(SnapshotDelta): {}", e))?;
+                            w.write_chunk(RawChunk::SnapshotDelta(&av)).map_err(|e| format!("write_chunk(SnapshotDelta): {}", e))
                         } else {
-                            w.write_snapshot_delta(&d).map_err(|e| format!("write_snapshot_delta: {}", e))?;
+                            w.write_snapshot_delta(&d).map_err(|e| format!("write_snapshot_delta: {}", e))
+                        };
+                        if settle(r, &mut armed)? {
+                            model.push(MChunk::Delta(d));
                         }
-                        model.push(MChunk::Delta(d));
                     }
                     DemoOp::Message { len, fill, salt } => {
                         if !have_tick {
@@ -258,16 +295,18 @@ impl DemoEngine {
                         }
                         // arbitrary content up to 12 KiB; compressible content up to beyond the 64 KiB the reader can return
                         let d = data(cfg.seed, if fill % 3 == 0 { (len as usize).min(70_000) } else { raw_len(len, fill).min(12_000) }, fill, salt);
-                        if cfg.via_chunk {
-                            w.write_chunk(RawChunk::Message(&d)).map_err(|e| format!("write_chunk(Message): {}", e))?;
+                        let r = if cfg.via_chunk {
+                            w.write_chunk(RawChunk::Message(&d)).map_err(|e| format!("write_chunk(Message): {}", e))
                         } else {
-                            w.write_message(&d).map_err(|e| format!("write_message: {}", e))?;
+                            w.write_message(&d).map_err(|e| format!("write_message: {}", e))
+                        };
+                        if settle(r, &mut armed)? {
+                            let mut padded = d.clone();
+                            while padded.len() % 4 != 0 {
+                                padded.push(0);
+                            }
+                            model.push(MChunk::Message(padded));
                         }
-                        let mut padded = d.clone();
-                        while padded.len() % 4 != 0 {
-                            padded.push(0);
-                        }
-                        model.push(MChunk::Message(padded));
                     }
                     _ => {}
                 }
@@ -277,6 +316,7 @@ impl DemoEngine {
         let _ = (ctx, log);
         match res {
             Ok(Ok(())) => Ok(model),
+            Ok(Err(e)) if e.starts_with("TW2SIM-SWALLOWED") => Err(Some(v("write-error-swallowed", &[], "a write call of the disk failed but the writer reported success for the chunk".into()))),
             Ok(Err(e)) => Err(Some(v("write-error-on-healthy-disk", &[], format!("the writer reported an error although the disk only showed legal short writes / EINTR: {}", e)))),
             Err(p) if out_of_domain(&p) => Err(None),
             Err(p) => Err(Some(v("panic", &[("side", "writer"), ("message", &p.msg_class()), ("file", &p.file_class())], format!("low-level writer panicked: {} at {}:{}", p.msg, p.file, p.line)))),
@@ -590,7 +630,11 @@ impl Engine for DemoEngine {
                 }
             }
         } else {
+            let write_errors = !fault_free && c.chance(1, 4);
             for _ in 0..n {
+                if write_errors && s.chance(1, 8) {
+                    ops.push(DemoOp::WriteError);
+                }
                 match s.below(8) {
                     0 | 1 | 2 => {
                         let inc = match s.below(8) {
@@ -759,7 +803,7 @@ impl Engine for DemoEngine {
             real: vec!["demo::Writer / Reader", "demo::ddnet::DemoWriter / DemoReader with gamenet_ddnet::Protocol", "binrw", "Huffman", "packer", "snapshot"],
             stub: vec!["the file (SimDisk: Read/Write/Seek with short reads, short writes, EINTR)"],
             required_probes: vec!["probe_raw_tick", "probe_raw_message", "probe_raw_payload_over_255", "probe_typed_snapshots", "probe_typed_refused_tick", "probe_typed_crossed_keyframe_interval"],
-            fault_kinds: vec!["fault_short_write", "fault_eintr_write", "fault_short_read", "fault_eintr_read"],
+            fault_kinds: vec!["fault_short_write", "fault_eintr_write", "fault_short_read", "fault_eintr_read", "fault_transient_write_error"],
         }
     }
 }
